@@ -1,6 +1,6 @@
 import TwistedModel.Http.Redirect
 /-!
-Driver glue for C27.  Tokens contain no spaces; strings are over `[A-Za-z0-9._~%=&+-]`.
+Driver glue for C27.  Tokens contain no spaces; strings are over `[A-Za-z0-9._~%=&+-]` (query and fragment also `:/?@`).
   uri  = `<scheme>|<host>|<port or empty>|<path>|<query>|<frag>`          (path as text, split on `/` here)
   ref  = `A|<scheme>|<host>|<port>|<path>|<query>|<frag>` / `N|<host>|<port>|<path>|<query>|<frag>` / `R|<path>|<query>|<frag>`
   `C27 join <uri> <ref>`                                      → resolved URI text
@@ -15,6 +15,10 @@ def okChar (c : Char) : Bool :=
   c.isAlphanum || c == '.' || c == '_' || c == '~' || c == '%' || c == '=' || c == '&' || c == '+' || c == '-'
 
 def okStr (s : String) : Bool := s.toList.all okChar
+
+/-- query / fragment text: RFC 3986 lets them contain `:` `/` `?` `@` as well (they are opaque strings in the model) -/
+def okQF (s : String) : Bool :=
+  s.toList.all fun c => okChar c || c == ':' || c == '/' || c == '?' || c == '@'
 
 def okPathText (s : String) : Bool := s.toList.all fun c => okChar c || c == '/'
 
@@ -37,7 +41,7 @@ def decUri (s : String) : Option Uri :=
   | [sc, host, port, path, query, frag] => do
     let sc ← decScheme sc
     let a ← decAuth host port
-    if okPathText path && okAfterAuth path && okStr query && okStr frag then
+    if okPathText path && okAfterAuth path && okQF query && okQF frag then
       pure { scheme := sc, auth := a, path := path.splitOn "/", query := query, frag := frag }
     else none
   | _ => none
@@ -47,17 +51,17 @@ def decRef (s : String) : Option Ref :=
   | ["A", sc, host, port, path, query, frag] => do
     let sc ← decScheme sc
     let a ← decAuth host port
-    if okPathText path && okAfterAuth path && okStr query && okStr frag then
+    if okPathText path && okAfterAuth path && okQF query && okQF frag then
       pure { kind := .abs sc a, path := path.splitOn "/", query := query, frag := frag }
     else none
   | ["N", host, port, path, query, frag] => do
     let a ← decAuth host port
-    if okPathText path && okAfterAuth path && okStr query && okStr frag then
+    if okPathText path && okAfterAuth path && okQF query && okQF frag then
       pure { kind := .net a, path := path.splitOn "/", query := query, frag := frag }
     else none
   | ["R", path, query, frag] =>
     -- a path-only reference beginning `//` would be read as an authority
-    if okPathText path && !path.startsWith "//" && okStr query && okStr frag then
+    if okPathText path && !path.startsWith "//" && okQF query && okQF frag then
       some { kind := .rel, path := path.splitOn "/", query := query, frag := frag }
     else none
   | _ => none
